@@ -17,7 +17,7 @@ def run_mode(eng, mode, text, tag, args=""):
     p = subprocess.run("%s %s %s < %s" % (eng.go_bin, mode, args, hp), shell=True, stdout=subprocess.PIPE, stderr=subprocess.PIPE, timeout=3000)
     if p.returncode:
         raise RuntimeError("mastrun %s failed: %s" % (mode, p.stderr.decode()[-2000:]))
-    return [json.loads(l) for l in p.stdout.decode("latin-1").split("\n") if l.strip()]
+    return [json.loads(l) for l in p.stdout.decode("latin-1").split("\n") if l.strip().startswith("{")]
 
 def fault_fails(recs, texts):
     fails = []
@@ -161,7 +161,7 @@ def run_cmd(eng, args, timeout=3000):
     p = subprocess.run("%s %s" % (eng.go_bin, args), shell=True, stdout=subprocess.PIPE, stderr=subprocess.PIPE, timeout=timeout)
     if p.returncode:
         raise RuntimeError("mastrun %s failed: %s" % (args, p.stderr.decode()[-2000:]))
-    return [json.loads(l) for l in p.stdout.decode("latin-1").split("\n") if l.strip()]
+    return [json.loads(l) for l in p.stdout.decode("latin-1").split("\n") if l.strip().startswith("{")]
 
 def be_fails(recs, engine, args):
     fails = []
@@ -262,7 +262,7 @@ def race_run(eng, text, tag):
     open(hp, "w").write(text)
     env = dict(os.environ, GORACE="halt_on_error=0 exitcode=0")
     p = subprocess.run("%s race < %s" % (binp, hp), shell=True, stdout=subprocess.PIPE, stderr=subprocess.PIPE, timeout=3000, env=env)
-    recs = [json.loads(l) for l in p.stdout.decode("latin-1").split("\n") if l.strip()]
+    recs = [json.loads(l) for l in p.stdout.decode("latin-1").split("\n") if l.strip().startswith("{")]   # the library prints diagnostics of its own
     err = p.stderr.decode("latin-1")
     reports = [b for b in err.split("==================") if "DATA RACE" in b]
     mine = [b for b in reports if "jrhy/mast" in b or "/repo/" in b]
